@@ -208,6 +208,49 @@ def check_pairs(chk, r, n_seeds, pred):
                     chk.disagree("wiring", case, pred[name][route], "user" if observed_user else "ambient")
 
 
+def check_reuse(chk, r, n):
+    """one sampler OBJECT serving several sampling calls, each with its own explicit generator: the second call with the same explicit
+    sources must give bit-identical results to the first (and to a fresh object), and must draw from the generator it was handed"""
+    from aspire.samplers.mcmc import MiniPCN
+    from aspire.samplers.smc.minipcn import MiniPCNSMC
+
+    for i in range(n):
+        seed = int(r.integers(1, 100000))
+        for kind in ("smc", "minipcn"):
+            nsn = ("numpy", "torch")[i % 2]
+            dims = 2
+            target = smcrun.Target(dims)
+            flow = smcrun.make_proposal(dims, seed=seed + 17, xp_name=nsn)
+            common = dict(log_likelihood=target.log_likelihood, log_prior=target.log_prior, dims=dims, prior_flow=flow,
+                          xp=ns.get_xp(nsn), parameters=["a", "b"])
+            case = {"level": "reuse", "sampler": kind, "seed": seed, "ns": nsn}
+            chk.count(f"reuse:{kind}")
+            chk.case(None, json.dumps(case))
+            try:
+                with ambient(1):
+                    smp = MiniPCNSMC(**common) if kind == "smc" else MiniPCN(**common)
+                    outs, states = [], []
+                    for call in range(3):
+                        g = np.random.default_rng(seed if call != 1 else seed + 1)      # call 1 uses OTHER sources in between
+                        flow.g = np.random.default_rng(seed + 17)
+                        if kind == "smc":
+                            s_ = smp.sample(12, sampler_kwargs={"n_steps": 2}, rng=g)
+                            outs.append(snapshot(s_, smp.history))
+                        else:
+                            s_ = smp.sample(12, rng=g, n_steps=3)
+                            outs.append(snapshot(s_, None))
+                        states.append(g.bit_generator.state["state"]["state"])
+            except Exception as exc:   # noqa
+                chk.fail("run total", case, repr(exc)[:300], {"clause": "raise", "sampler": kind, "route": "reuse"})
+                continue
+            a, b = outs[0], outs[2]
+            diff = [k for k in a if a[k] != b.get(k) and not (isinstance(a[k], float) and a[k] != a[k] and b.get(k) != b.get(k))]
+            if diff or states[0] != states[2]:
+                chk.fail("same explicit sources give bit-identical results", case,
+                         f"first and third call on the same sampler object with identical explicit sources differ in {diff or 'the final state of the supplied generator'}",
+                         {"clause": "reproducible", "sampler": kind, "route": "reuse", "fields": diff})
+
+
 def check_flows(chk, quick):
     """flow construction + training twice with the same seed / key, different ambient entropy"""
     import torch
@@ -257,6 +300,7 @@ def run(chk: core.Check):
                     "kernel doubles draw only from the generator they are handed"]
     pred = check_wiring(chk)
     check_pairs(chk, r, 3 if quick else 40, pred)
+    check_reuse(chk, r, 3 if quick else 30)
     check_flows(chk, quick)
 
     def search():
